@@ -212,6 +212,8 @@ void harness(void){
     else { assert(rc==HTP_OK && C.in_state==htp_connp_REQ_FINALIZE); }
 #elif STATE==S_CONNECT_PROBE
     assert(n_body==0 && n_hdr==0);
+    { size_t i=(size_t)ro; while(i<len && chunk0[i]!='\n' && chunk0[i]!=0) i++;
+      if(i==len){ assert(rc==HTP_DATA_BUFFER && ro1==(int64_t)len && co1==co && n_stub==0 && C.in_status==st0); } }   /* the decision needs the whole first line */
     if(rc==HTP_OK||rc==HTP_STOP||(rc==HTP_ERROR&&n_complete)){
         if(!had_buf) assert(co1==co);     /* nothing of the probed line is consumed: it is parsed (or tunnelled) from its first byte */
         if(n_complete==0){ assert(rc==HTP_OK && C.in_status==HTP_STREAM_TUNNEL); if(ost0!=HTP_STREAM_ERROR&&ost0!=HTP_STREAM_STOP) assert(C.out_status==HTP_STREAM_TUNNEL); }
